@@ -19,7 +19,7 @@ RULE = ('cases = generated histories through DB/Connection (changes, creations, 
         'commit generated changes (and a pack to an earlier time runs), it is read again (also after cache minimize and '
         'after close + reopen from the historical pool); writes through it must fail and store nothing; bounds beyond the '
         'newest transaction must raise ValueError; evaluations = bounds checked; non-trivial = a bound strictly inside the '
-        'history at which >= 1 object differs from its current state, re-read after a later commit; distinct by (case hash, bound)')
+        'history at which >= 1 object differs from its current state, re-read after a later commit; distinct by (case hash, bound); later additions: blob kinds, packs inside the history, a change taken back before the commit of the historical connection (nothing may be stored)')
 ASSUMPTIONS = ['datetime bounds are chosen >= 100 ms away from any transaction time',
                'after the pack, historical points older than the pack time are closed without being judged again']
 BUDGET = {'quick': {'examples': 3500, 'workers': 8},
